@@ -990,9 +990,16 @@ impl<'a> Cx<'a> {
                     y.push("end".into());
                     x = y;
                 }
-                let closure = |body: Vec<String>, tag: &str| -> Vec<String> {
-                    let sub = if self.pure_mode() { [0usize, 3][self.c.n(tag, 2)] } else { self.c.n(tag, 4) };
-                    match sub {
+                let csub = if self.pure_mode() { [0usize, 3][self.c.n("cform", 2)] } else { self.c.n("cform", 4) };
+                if k.closure_in_loop() && k != Kind::ExitInClosureBaseLoop {
+                    match csub {
+                        1 => prelude.push("Zm :: blob { f: fn -> void }\n".into()),
+                        2 => prelude.push("zzcall :: fn zzf: fn -> void do\n    zzf()\nend\n".into()),
+                        _ => {}
+                    }
+                }
+                let closure = |body: Vec<String>| -> Vec<String> {
+                    match csub {
                         1 => {
                             // method of a blob literal
                             let mut y = vec!["zzc :: Zm { f: fn do".to_string()];
@@ -1031,15 +1038,9 @@ impl<'a> Cx<'a> {
                 };
                 match k {
                     Kind::BreakNoLoop | Kind::ContinueNoLoop | Kind::ExitInClosureBaseLoop => Core::Stmts(x),
-                    Kind::ClosureExitInBaseLoop => {
-                        prelude.push("Zm :: blob { f: fn -> void }\n".into());
-                        prelude.push("zzcall :: fn zzf: fn -> void do\n    zzf()\nend\n".into());
-                        Core::Stmts(closure(x, "cform"))
-                    }
+                    Kind::ClosureExitInBaseLoop => Core::Stmts(closure(x)),
                     _ => {
-                        prelude.push("Zm :: blob { f: fn -> void }\n".into());
-                        prelude.push("zzcall :: fn zzf: fn -> void do\n    zzf()\nend\n".into());
-                        let mut body = closure(x, "cform");
+                        let mut body = closure(x);
                         let mut y: Vec<String> = Vec::new();
                         if !self.pure_mode() && self.c.bit("counted") {
                             form.push_str(" counted-loop");
